@@ -338,6 +338,23 @@ def sampleCheck (cap : Nat) (op : Op) (A B : Operand) (R : Option Operand) : Opt
   let pts := (samplePoints cap (ext / 1000000000) ra rb rr).filter fun p => clearOf m ra p && clearOf m rb p
   (pts.find? fun p => memberRes R p != opBool op (member A p) (member B p), pts.length)
 
+/-! ## "lies in" as answered by the library (`Point.Within` on results — an observation point of the property) -/
+
+/-- the three answers of `geom.Point.Within` -/
+inductive WStatus | outside | inside | onEdge
+deriving DecidableEq, Repr, Inhabited
+
+/-- The statement with "lies in `A.op(B)`" answered by the library: at a point off both input
+boundaries `p.Within(A.op(B))` must be `Inside` exactly when the truth table says so (and `Outside`
+otherwise; `OnEdge` is wrong at a point with clear margin: the result has no boundary there). -/
+def withinAgrees (op : Op) (A B : Operand) (p : P) (s : WStatus) : Bool :=
+  s == (if opBool op (member A p) (member B p) then .inside else .outside)
+
+/-- first probe (point, library answer) with clear margin `m` from every input edge at which the
+library's answer about the result contradicts the statement -/
+def withinCheck (m : Rat) (op : Op) (A B : Operand) (probes : List (P × WStatus)) : Option (P × WStatus) :=
+  probes.find? fun (p, s) => clearOf m A.rings p && clearOf m B.rings p && !withinAgrees op A B p s
+
 /-- the operands are well nested (holes in shells, members disjoint) as far as the sample points tell -/
 def nestedCheck (cap : Nat) (A B : Operand) : Bool :=
   (samplePoints cap (extentOf A.rings B.rings / 1000000000) A.rings B.rings []).all fun p => wellNestedAt A p && wellNestedAt B p
